@@ -12,7 +12,7 @@ func init() {
 	register(&Spec{
 		ID:          "C18",
 		Loads:       []LoadSpec{{Patterns: []string{"./sweep"}}},
-		Explanation: "Decides that a sweep transaction is handed to the wallet only by TxPublisher.broadcast, whose record was produced by createAndCheckTx below `fee <= Budget` with the fee that prepareSweepTx computed; that the fee ceiling is min(budget rate, MaxFeeRate) and the schedule clamps at its ending rate; that the schedule position only moves forward and the current rate is only ever derived from the position; that every requested input gets exactly one transaction input; that the amount left after required outputs and fee either becomes a change output not below the dust floor or is added to the reported fee; and that the RBF creation loop leaves only with a checked transaction or an error and raises the fee only through the fee function.",
+		Explanation: "Decides that a sweep transaction is handed to the wallet only by TxPublisher.broadcast, whose record was produced by createAndCheckTx below `fee <= Budget` with the fee that prepareSweepTx computed; that the fee ceiling is min(budget rate, MaxFeeRate) and the schedule clamps at its ending rate; that the schedule position only moves forward and the current rate is only ever derived from the position; that every requested input gets exactly one transaction input; that the amount left after required outputs and fee either becomes a change output not below the dust floor or is added to the reported fee; and that the RBF creation loop leaves only with a checked transaction or an error and raises the fee only through the fee function; further (c18_fix4.go) that a caller-supplied starting rate is lifted to the fee floor and, at the ceiling, yields a function instead of a zero-delta failure, that a budget rate below the fee floor is refused with an error the publisher answers with TxFailed, that a re-offered input keeps the rate already offered, that an estimate below the relay fee is clamped, that no input is filtered out for its starting rate, and that an input is re-queued only when no monitor record works on it.",
 		NotDecided: []string{
 			"monotonicity and ceiling-reaching of the numeric rate sequence (float arithmetic in the delta)", "fee estimator answers", "weight estimation accuracy (the fee is rate x estimated weight)",
 			"the wallet-funded 'sweep all' transaction built by the free function createSweepTx in txgenerator.go (not a sweeper publication)",
@@ -147,7 +147,7 @@ func runC18(r *an.Run) {
 		})
 
 	r.Obl("rate-ceiling-clamps", "GUARD",
-		"MaxFeeRateAllowed returns r.MaxFeeRate when Budget/size exceeds it and Budget/size otherwise, size being the weight of the request's inputs; the fee function is constructed (only by initializeFeeFunction) with exactly that value as its ending rate, which is never written afterwards and is the only rate a constructor literal may carry directly, and a starting rate above it is replaced by it before the per-block delta and the current rate are derived; feeRateAtPosition returns the ending rate for p >= width or when the computed rate exceeds it, and the computed rate only below `rate <= endingFeeRate`",
+		"MaxFeeRateAllowed returns r.MaxFeeRate when Budget/size exceeds it and Budget/size otherwise, size being the weight of the request's inputs; the fee function is constructed (only by initializeFeeFunction) with exactly that value as its ending rate, which is never written afterwards and is (as the parameter, or read back from the function under construction) the only rate a constructor literal may carry directly; a literal that carries it as starting or current rate (a function constant at the ceiling) is built only below `confTarget <= 1` or below `start >= end` tested after the last write of the starting rate; after its definition the starting rate is written only by the lift `start = chainfee.FeePerKwFloor` (below `start < chainfee.FeePerKwFloor`, for a caller-supplied rate, and followed by the cap or a fresh `start <= end` before the rate is consumed) and by the cap `start = end`, and a starting rate above the ceiling is replaced by it before the per-block delta and the current rate are derived; feeRateAtPosition returns the ending rate for p >= width or when the computed rate exceeds it, and the computed rate only below `rate <= endingFeeRate`",
 		"a ceiling above the budget rate or the configured maximum lets later bumps exceed what the property allows", 8,
 		func(o *an.Obl) {
 			c18RateCeilingClamps(o, p)
